@@ -20,6 +20,20 @@ pub fn is_chk() -> bool {
     cfg!(debug_assertions)
 }
 
+/// whether this crate (a workspace member that follows the build profile, like the library under test) was compiled
+/// with integer-overflow checks: probed, because `cfg(overflow_checks)` is not a stable cfg
+pub fn is_oc() -> bool {
+    #[inline(never)]
+    fn probe(x: u8) -> u8 {
+        x + 1
+    }
+    let prev = std::panic::take_hook();
+    std::panic::set_hook(Box::new(|_| {}));
+    let r = std::panic::catch_unwind(|| probe(std::hint::black_box(255u8)));
+    std::panic::set_hook(prev);
+    r.is_err()
+}
+
 pub trait VF: Fixed + 'static {
     const LAY: L;
     /// from a zero-extended raw pattern (truncating)
@@ -45,6 +59,15 @@ pub trait VF: Fixed + 'static {
     fn cmp_bf16(st: usize, a: Self, bits: u16, outs: &mut Outs);
     fn lossy_f32(a: Self) -> f32;
     fn lossy_f64(a: Self) -> f64;
+    /// the five `az` cast traits (library feature `az`) between Self and a primitive: steps base..base+5; no outputs when the
+    /// harness is built without the feature
+    fn az_to_int(st: usize, base: usize, a: Self, kind: usize, outs: &mut Outs);
+    fn az_from_int(st: usize, base: usize, kind: usize, t: u128, outs: &mut Outs);
+    fn az_from_bool(st: usize, base: usize, t: bool, outs: &mut Outs);
+    fn az_to_f32(st: usize, base: usize, a: Self, outs: &mut Outs);
+    fn az_to_f64(st: usize, base: usize, a: Self, outs: &mut Outs);
+    fn az_from_f32(st: usize, base: usize, t: f32, outs: &mut Outs);
+    fn az_from_f64(st: usize, base: usize, t: f64, outs: &mut Outs);
     /// Wrapping<F> binary operators; op 0 + 1 - 2 * 3 / 4 % 5 & 6 | 7 ^; form 0 `a op b`, 1 `&a op &b`,
     /// 2 `&a op b`, 3 `a op &b`, 4 `a op= b`, 5 `a op= &b`
     fn w_bin(a: Wrapping<Self>, b: Wrapping<Self>, op: u8, form: u8) -> Wrapping<Self>;
@@ -64,6 +87,35 @@ pub trait VF: Fixed + 'static {
     /// `bytes` must have exactly width/8 elements
     fn from_bytes(bytes: &[u8], which: u8) -> Self;
 }
+
+/// "all five az cast traits from Self to T" as one bound; every type satisfies it when the harness is built without `az`
+#[cfg(feature = "az")]
+pub trait AzAll<T>: Copy + az::Cast<T> + az::CheckedCast<T> + az::SaturatingCast<T> + az::WrappingCast<T> + az::OverflowingCast<T> {}
+#[cfg(feature = "az")]
+impl<S, T> AzAll<T> for S where S: Copy + az::Cast<T> + az::CheckedCast<T> + az::SaturatingCast<T> + az::WrappingCast<T> + az::OverflowingCast<T> {}
+#[cfg(not(feature = "az"))]
+pub trait AzAll<T>: Copy {}
+#[cfg(not(feature = "az"))]
+impl<S: Copy, T> AzAll<T> for S {}
+
+/// `az::cast(s)` family, labels `<fam>:plain|checked|saturating|wrapping|overflowing` (steps base..base+5)
+#[cfg(feature = "az")]
+#[inline(always)]
+pub fn az_forms<S: AzAll<T>, T>(st: usize, base: usize, fam: [&'static str; 5], s: S, raw: fn(T) -> u128, outs: &mut Outs) {
+    vcore::step!(st, outs, base, fam[0], Out::V(raw(az::cast::<S, T>(s))));
+    vcore::step!(st, outs, base + 1, fam[1], Out::O(az::checked_cast::<S, T>(s).map(raw)));
+    vcore::step!(st, outs, base + 2, fam[2], Out::V(raw(az::saturating_cast::<S, T>(s))));
+    vcore::step!(st, outs, base + 3, fam[3], Out::V(raw(az::wrapping_cast::<S, T>(s))));
+    vcore::step!(st, outs, base + 4, fam[4], {
+        let (v, o) = az::overflowing_cast::<S, T>(s);
+        Out::F(raw(v), o)
+    });
+}
+#[cfg(not(feature = "az"))]
+#[inline(always)]
+pub fn az_forms<S: AzAll<T>, T>(_st: usize, _base: usize, _fam: [&'static str; 5], _s: S, _raw: fn(T) -> u128, _outs: &mut Outs) {}
+pub const AZ_TO: [&str; 5] = ["az_to:plain", "az_to:checked", "az_to:saturating", "az_to:wrapping", "az_to:overflowing"];
+pub const AZ_FROM: [&str; 5] = ["az_from:plain", "az_from:checked", "az_from:saturating", "az_from:wrapping", "az_from:overflowing"];
 
 pub fn ord_out(o: Option<core::cmp::Ordering>) -> Out {
     Out::O(o.map(|x| match x {
@@ -232,6 +284,27 @@ macro_rules! impl_vf {
             }
             fn lossy_f64(a: Self) -> f64 {
                 <f64 as substrate_fixed::traits::LossyFrom<Self>>::lossy_from(a)
+            }
+            fn az_to_int(st: usize, base: usize, a: Self, kind: usize, outs: &mut Outs) {
+                $crate::with_int!(kind, T => $crate::az_forms::<Self, T>(st, base, $crate::AZ_TO, a, |t| <T as IntRaw>::raw(t), outs));
+            }
+            fn az_from_int(st: usize, base: usize, kind: usize, t: u128, outs: &mut Outs) {
+                $crate::with_int!(kind, T => $crate::az_forms::<T, Self>(st, base, $crate::AZ_FROM, <T as IntRaw>::from_raw(t), |x| x.raw(), outs));
+            }
+            fn az_from_bool(st: usize, base: usize, t: bool, outs: &mut Outs) {
+                $crate::az_forms::<bool, Self>(st, base, $crate::AZ_FROM, t, |x| x.raw(), outs);
+            }
+            fn az_to_f32(st: usize, base: usize, a: Self, outs: &mut Outs) {
+                $crate::az_forms::<Self, f32>(st, base, $crate::AZ_TO, a, |t| t.to_bits() as u128, outs);
+            }
+            fn az_to_f64(st: usize, base: usize, a: Self, outs: &mut Outs) {
+                $crate::az_forms::<Self, f64>(st, base, $crate::AZ_TO, a, |t| t.to_bits() as u128, outs);
+            }
+            fn az_from_f32(st: usize, base: usize, t: f32, outs: &mut Outs) {
+                $crate::az_forms::<f32, Self>(st, base, $crate::AZ_FROM, t, |x| x.raw(), outs);
+            }
+            fn az_from_f64(st: usize, base: usize, t: f64, outs: &mut Outs) {
+                $crate::az_forms::<f64, Self>(st, base, $crate::AZ_FROM, t, |x| x.raw(), outs);
             }
             fn w_bin(a: Wrapping<Self>, b: Wrapping<Self>, op: u8, form: u8) -> Wrapping<Self> {
                 match op {
